@@ -4354,6 +4354,9 @@ def parse(src: str) -> Program:
         raise ValueError("script is nested too deeply to be transpiled") from exc
     except OverflowError as exc:
         raise ValueError("numeric constant is out of range") from exc
+    except MemoryError as exc:
+        # CPython's own parser gives up on some fragments ("Parser stack overflowed")
+        raise ValueError("script is too complex to be transpiled") from exc
 
 
 def _parse_source(src: str) -> Program:
